@@ -156,6 +156,14 @@ def _decide(test, p, node, budget):
         yield p, bool(test.value)
         return
     t = subst(test, p.env)
+    if isinstance(t, ast.Constant):
+        yield p, bool(t.value)          # decided by what the path already bound (a flag set on this very path)
+        return
+    if isinstance(t, ast.Compare) and len(t.ops) == 1 and isinstance(t.ops[0], (ast.Is, ast.IsNot)) \
+            and isinstance(t.left, ast.Constant) and isinstance(t.comparators[0], ast.Constant):
+        same = t.left.value is t.comparators[0].value
+        yield p, same == isinstance(t.ops[0], ast.Is)
+        return
     for v in (True, False):
         q_ = p.fork()
         q_.conds.append((t, v, node))
@@ -255,6 +263,22 @@ def paths(body, env=None, limit=400):
                     q_.events.append((st, dict(q_.env)))
                 yield from run(rest, q_)
             return
+        if isinstance(st, ast.While) and isinstance(st.test, ast.Constant) and st.test.value is True and not st.orelse:
+            # a one-shot block: `while True:` whose every path leaves by break / return / raise runs its body exactly once
+            # (how the normaliser spells an inlined helper with several returns) - followed inline, no summary needed
+            saved = len(done)
+            falls = list(run(st.body, p.fork()))
+            new = done[saved:]
+            if not falls and not any(d.exit == 'continue' for d in new):
+                del done[saved:]
+                for d in new:
+                    if d.exit == 'break':
+                        d.exit, d.node = None, None
+                        yield from run(rest, d)
+                    else:
+                        done.append(d)
+                return
+            del done[saved:]
         if isinstance(st, (ast.For, ast.AsyncFor, ast.While)):
             p.events.append((st, dict(p.env)))
             names = _stores([st])
